@@ -4,8 +4,8 @@ import random
 from harness import common, tlc, runner
 
 # ------------------------------------------------------------------------------------------------ C06
-ALPHABET = ["EQ", "EB", "HH", "SD", "XS", "GE", "UE", "NA", "@", "#", "<", ">", "7", "_", "%", "a"]
-EXPAND = {"EQ": '\\"', "EB": "\\\\", "HH": "^^", "SD": " .", "XS": "xsd:", "GE": "geo:", "UE": "\\u00E9", "NA": "é"}
+ALPHABET = ["EQ", "EB", "HH", "SD", "XS", "GE", "UE", "NA", "@", "#", "<", ">", "7", "_", "%", "a", "LS"]
+EXPAND = {"EQ": '\\"', "EB": "\\\\", "HH": "^^", "SD": " .", "XS": "xsd:", "GE": "geo:", "UE": "\\u00E9", "NA": "é", "LS": "\u2028"}
 IRIS = {"i1": "http://a.b/c#d", "i2": "urn:x:y_z@w", "i3": "http://a.b/p_q", "dt": "http://u.v/dt#t"}
 BNODES = {"b1": "_:b1", "b2": "_:x_2", "b3": "_:n.1.z"}
 SUFFIX = {"none": "", "lang": "@en", "langreg": "@en-GB", "langnum": "@es-419", "dt": "^^<%s>" % IRIS["dt"]}
@@ -79,8 +79,8 @@ def _read_nt(payload):
             triples.append([_term(s), str(p), _term(o)])
         return triples, y.error_triples
     st, val, exc, frame = runner.call_guarded(go, timeout=3)
-    res = {"id": payload["id"], "x": payload["x"], "line": list(line), "status": st, "exc": exc, "frame": frame,
-           "triples": [], "errors": 0}
+    res = {"id": payload["id"], "x": payload["x"], "line": ["LS" if ch == "\u2028" else ch for ch in line], "status": st, "exc": exc, "frame": frame,
+           "triples": [], "errors": 0}           # (the specification names the Unicode line separator "LS")
     if st == "ok":
         res["triples"], res["errors"] = val
     return res
@@ -111,11 +111,11 @@ def judge_nt(out, stmts, label):
             out.nontrivial.add(r["id"])
         for c in v["clauses"]:
             if c.startswith("MACHINERY"):
-                raise common.Machinery("generator / renderer / grammar disagree on %r (%s)" % ("".join(r["line"]), c))
+                raise common.Machinery("generator / renderer / grammar disagree on %r (%s)" % ("".join(r["line"]).replace("LS", "\u2028"), c))
             if c.startswith("drift"):
                 drift += 1
                 continue
-        case = {"kind": "nt", "x": r["x"], "line": "".join(r["line"])}
+        case = {"kind": "nt", "x": r["x"], "line": "".join(r["line"]).replace("LS", "\u2028")}
         detail = "%s line=%r yielded=%r errors=%d %s" % (label, "".join(r["line"]), r["triples"], r["errors"], r["exc"])
         out.judge_clauses([c for c in v["clauses"] if c.startswith("C06")], case, lambda c: True, detail=detail)
         out.sample({"line": "".join(r["line"]), "yielded": r["triples"], "errors": r["errors"], "clauses": v["clauses"]})
@@ -161,15 +161,16 @@ REGISTRY = {"C06": check_c06}
 TOK_TEXT = {"s.pn": "ex:a", "s.abs": "<http://x.org/s>", "s.rel": "<r1>", "s.bn": "_:b1",
             "p.pn": "ex:p", "p.a": "a", "p.abs": "<http://x.org/q>", "p.type": "rdf:type",
             "o.pn": "ex:b", "o.abs": "<http://x.org/o#f>", "o.rel": "<r2>", "o.bn": "_:b2", "o.int": "57",
-            "o.str": '"x y"', "o.xsd": '"5"^^xsd:int', "o.dti": '"v"^^<http://x.org/dt>', "o.dtp": '"v"^^ex:dt',
+            "o.str": '"x y"', "o.xsd": '"5"^^xsd:int', "o.dti": '"v"^^<http://x.org/dt>', "o.dtp": '"v"^^ex:dt', "o.dtg": '"4"^^geo:deg',
             "o.lang": '"hola"@es', "o.spec": '"a # b ; c , d . e"', "o.esc": '"q\\"u\\\\"', "o.cls": "ex:C",
             "o.https": "<https://s.org/x>", "s.https": "<https://s.org/y#z>"}
 SUBJ_TOKS = ["s.pn", "s.abs", "s.rel", "s.bn", "s.https"]
 PRED_TOKS = ["p.pn", "p.a", "p.abs", "p.type"]
-OBJ_TOKS = ["o.pn", "o.abs", "o.rel", "o.bn", "o.int", "o.str", "o.xsd", "o.dti", "o.dtp", "o.lang", "o.spec", "o.esc", "o.cls", "o.https"]
+OBJ_TOKS = ["o.pn", "o.abs", "o.rel", "o.bn", "o.int", "o.str", "o.xsd", "o.dti", "o.dtp", "o.dtg", "o.lang", "o.spec", "o.esc", "o.cls", "o.https"]
 GAPS = ["sp", "sp2", "tab", "nl", "nlsp", "cmt", "cline"]
 HEADER = ["@prefix ex: <http://ex.org/> .", "@prefix xsd: <http://www.w3.org/2001/XMLSchema#> .",
-          "@prefix rdf: <http://www.w3.org/1999/02/22-rdf-syntax-ns#> .", "@base <http://b.org/d/> ."]
+          "@prefix rdf: <http://www.w3.org/1999/02/22-rdf-syntax-ns#> .", "@prefix geo: <http://www.w3.org/2003/01/geo/wgs84_pos#> .",
+          "@base <http://b.org/d/> ."]
 COMMENT_TAIL = ' # c " .'
 COMMENT_LINE = "# line ;"
 
@@ -297,7 +298,7 @@ def check_c07(out, tier):
     i = 0
     forms = [("o.pn", "s.pn"), ("o.str", "s.rel"), ("o.dtp", "s.abs"), ("o.lang", "s.bn"), ("o.spec", "s.pn"), ("o.int", "s.rel"),
              ("o.esc", "s.abs"), ("o.xsd", "s.pn"), ("o.dti", "s.bn"), ("o.bn", "s.rel"), ("o.abs", "s.pn"), ("o.rel", "s.abs"),
-             ("o.https", "s.https")]
+             ("o.https", "s.https"), ("o.dtg", "s.pn")]
     per = 160 if tier == "quick" else 4096
     for of, sf in forms:
         toks = skeleton(of, sf)
